@@ -1,15 +1,45 @@
 # driver configuration and manifest text for C10 (loaded by checks_conf.py)
 CHECK = {'level': 'exploration',
  'exhaustive': True,
- 'rule': 'histories: every sequence of edit / pull / merge-on-conflict events over three replicas up to length 6 (quick) / 8 (thorough), each event executed with the real '
-         'vector functions next to a classic version vector, plus seeded random histories of length 9..40; distinct_nontrivial = distinct reached states (all three '
-         'vectors) of histories of length <= 6 that contain a merge',
- 'parts': [{'name': 'histories', 'pkg': 'db', 'run': '^TestVerif_C10_Histories$', 'timeout_q': 300, 'timeout_t': 1800}],
- 'min_evals': 1000,
- 'min_counters': {'histories.histories_enumerated': 100000, 'histories.event_merge': 1000, 'histories.event_accept': 1000, 'histories.event_known': 1000},
- 'assumptions': ['three sources: previous-version compaction (more than 5 sources in pv and a configured pruning window) is never triggered and is not covered']}
+ 'rule': 'histories: every sequence of edit / pull / merge-on-conflict events over three replicas up to length 7 (quick) / 9 (thorough) is executed with the real vector '
+         'functions (wire form on every pull, stored form after every change) next to a classic version vector per replica, plus seeded random histories of length 9..40; '
+         'distinct_nontrivial = distinct reached states (the three vectors) of histories of length <= 6 that contain a merge. codec: all structurally valid vectors over '
+         '3 sources x 4 values (10 values thorough) incl. 1, 16, 2^63, 2^64-1, each with cvCas 0 / = version / macro sentinel; distinct_nontrivial = distinct vectors + '
+         'distinct generated strings the wire parser accepted (10^5 quick / 10^6 thorough generated, about 40% accepted). generation: 8 goroutines x 20000 clock draws and '
+         '8 x 60 concurrent writes under -race, two deterministic tombstone-resurrection interleavings, then seeded database rounds (40 operations on 3 documents; wall / frozen / backwards version clock with clock restarts); '
+         'distinct_nontrivial = gateway writes whose only protection is the version floor (existing own value >= clock) + documents written concurrently',
+ 'parts': [{'name': 'histories', 'pkg': 'db', 'run': '^TestVerif_C10_Histories$', 'timeout_q': 400, 'timeout_t': 2400},
+           {'name': 'codec', 'pkg': 'db', 'run': '^TestVerif_C10_(Codec|WireParser)$', 'timeout_q': 300, 'timeout_t': 1800},
+           {'name': 'generation', 'pkg': 'db', 'race': True, 'run': '^TestVerif_C10_(ClockRace|DB)$', 'timeout_q': 500, 'timeout_t': 2400}],
+ 'min_evals': 500000,
+ 'min_counters': {'histories.histories_enumerated': 500000, 'histories.event_merge': 50000, 'histories.event_accept': 50000, 'histories.event_known': 50000,
+                  'histories.event_accept-same-merge': 1000, 'histories.random_histories': 4000,
+                  'codec.vectors': 2000, 'codec.stored_round_trips': 6000, 'codec.wire_round_trips': 2000, 'codec.parser_accepted': 20000, 'codec.parser_rejected': 20000,
+                  'generation.clock_values': 160000, 'generation.race_acknowledged_writes': 200, 'generation.gateway_writes_acknowledged': 200,
+                  'generation.gateway_writes_where_only_the_floor_protects': 50, 'generation.pushes_accept': 100, 'generation.pushes_conflict': 10,
+                  'generation.pushes_known': 20, 'generation.clock_restarts': 20, 'generation.resurrection_scenarios': 2},
+ 'race_files': ['db/hybrid_logical_vector.go', 'db/crud.go', 'db/database.go'],
+ 'race_state': ['hlc', 'generatedVersion', 'HLV'],
+ 'assumptions': ['three sources: previous-version compaction (more than 5 sources in pv and a configured pruning window) is never triggered and is not covered',
+                 'a replica generates its next version as (largest value of its own source in the vector it edits)+1, the slowest clock hlc.Now(floor) admits; '
+                 'wall-clock protection is deliberately not relied on in the histories part',
+                 'documented design, not treated as a violation: the current source may also be listed in mv with an older value (MergeWithIncomingHLV; '
+                 'maxValueForSource comment); every other double listing is a violation',
+                 'the last-write-wins resolutions (resolveLocalWinsHLV / resolveRemoteWinsHLV) are executed as a non-deciding extension: the property speaks of merges; '
+                 'disagreements are recorded as notes (lww_diagnostic_disagreement_classes)',
+                 'the hybrid logical clock itself is sg-bucket code (module cache, outside /repo): a data race inside it is not attributable by the driver; '
+                 'uniqueness and order of the values are checked instead',
+                 'database part: one gateway, client pushes through PutExistingCurrentVersion without a conflict resolver (conflict = 409); the resolver path of ISGR is C06']}
 
-META = {'technique': 'runtime monitoring: exhaustive small-scope execution of the real version-vector functions next to classic version vectors; exhaustive codec round trips; '
-              'generated-input wire parser oracle; race detector on the version clock; database workload monitor',
- 'level_text': 'tbd',
- 'level_note': 'tbd'}
+META = {'technique': 'runtime monitoring: exhaustive small-scope execution of the real version-vector functions next to classic version vectors (ground truth); exhaustive codec '
+              'round trips with independent readers of the stored and wire forms; generated-input wire parser oracle; race detector and uniqueness/order monitor on the '
+              'version clock; database workload monitor under hostile clocks',
+ 'level_text': 'Every history of edit / pull / merge events over three replicas up to length 7 (9 thorough) is executed with IsInConflict, UpdateWithIncomingHLV, '
+               'MergeWithIncomingHLV, AddVersion and the real wire and stored codecs; after each event the classification and the resulting vector are compared with '
+               'classic version vectors (nothing lost, invented, lowered, listed twice; recorded merge; version floor). All structurally valid vectors of a small universe '
+               'round-trip through both codecs and are re-read by independent decoders of the documented formats; 10^5..10^6 generated strings test the wire parser. The '
+               'version clock is drawn from by 8 goroutines under -race, and a database workload with frozen / backwards clocks and clock restarts checks that each '
+               "document's current version strictly increases along acknowledged gateway writes. Exploration, exhaustive in the stated small scope.",
+ 'level_note': 'Trusted: the harness ground truth (classic version vectors, ~60 lines), the independent readers of the two formats, the Go runtime, rosmar. Bounded: 3 sources, '
+               'histories <= 9 events (random up to 40), 4..10 values per source. Not covered: pv compaction, legacy rev-tree encoded versions, the ISGR resolver path at '
+               'database level, the clock implementation inside sg-bucket beyond its observable values.'}
